@@ -764,6 +764,78 @@ class Pipeline:
                              -1, ' '.join(lcmd), lout,
                              {'client': 'shapes', 'kind': 'call-shape', 'headers': [h], 'desc': 'call shapes: ' + h}, cls='compile', hs=(h,))
 
+    def stage_pollution(self):
+        """what a cstl header may NOT change for the code that follows it: (a) feature-test macros -- a strict ISO C99 client
+        (no _POSIX_C_SOURCE, no _GNU_SOURCE) owns the identifiers that POSIX/GNU add to the standard headers (getline, strdup,
+        strnlen, dprintf, stpcpy ...) and may define them itself; (b) diagnostics -- code that only draws WARNINGS under the
+        project's flags (shadowing, unused things, sign comparison ...) must still compile after a cstl include.  Each header
+        comes FIRST, then the ISO headers, then the client's code.  A control TU without the cstl include decides whether the
+        client code is acceptable to this compiler/libc at all."""
+        inc = os.path.join(self.scratch, 'include')
+        d = os.path.join(self.broot, 'pollution')
+        os.makedirs(d, exist_ok=True)
+        body = """
+#include <stdio.h>
+#include <string.h>
+#include <stdlib.h>
+#include <stddef.h>
+/* identifiers that ISO C99 leaves to the program */
+static int getline(int a) { return a + 1; }
+static int getdelim(int a) { return a + 2; }
+static int strdup(int a) { return a + 3; }
+static int strndup(int a) { return a + 4; }
+static int strnlen(int a) { return a + 5; }
+static int stpcpy(int a) { return a + 6; }
+static int dprintf(int a) { return a + 7; }
+static int fmemopen(int a) { return a + 8; }
+static int strsignal(int a) { return a + 9; }
+static int ssize_of(int a) { return a; }
+/* legal code that draws warnings only */
+static size_t count;
+static int sloppy(int count_, unsigned u)
+{
+    int i, unused_local;
+    int r = 0;
+    for (i = 0; i < 3; i++) { int i = 7; r += i; }           /* -Wshadow */
+    { size_t count = 2; r += (int)count; }                   /* shadows a file-scope object */
+    if (count_ < u) r++;                                     /* -Wsign-compare */
+    return r;
+}
+int main(void)
+{
+    count = 1;
+    return (getline(1) + getdelim(1) + strdup(1) + strndup(1) + strnlen(1) + stpcpy(1) + dprintf(1) + fmemopen(1) + strsignal(1)
+            + ssize_of(0) + sloppy(1, 2u) == 2 + 3 + 4 + 5 + 6 + 7 + 8 + 9 + 10 + 0 + 24) ? 0 : 1;
+}
+"""
+        flags = ['-std=c99', '-pedantic', '-Wall', '-Wextra']           # the project's warning flags, NO feature-test macro
+        ctl = os.path.join(d, 'control.c')
+        open(ctl, 'w').write('/* verif C18: control (no cstl header) */' + body)
+        rc, out = sh(['gcc'] + flags + ['-c', ctl, '-o', ctl[:-2] + '.o'])
+        if rc != 0:
+            self.count('pollution.control-does-not-compile')
+            self.vlog('gcc %s -c %s' % (' '.join(flags), ctl), rc, out)
+            return
+
+        def one(h):
+            src = os.path.join(d, 'after_%s.c' % hname(h))
+            open(src, 'w').write('/* verif C18: client code after a cstl header */\n#include "cstl/%s"\n' % h + body)
+            cmd = ['gcc'] + flags + ['-I' + inc, '-c', src, '-o', src[:-2] + '.o']
+            rc, out = sh(cmd)
+            return h, cmd, rc, out
+        with ThreadPoolExecutor(max_workers=WORKERS) as ex:
+            results = list(ex.map(one, self.headers))
+        for h, cmd, rc, out in results:
+            self.vlog(' '.join(cmd), rc, out)
+            self.count('pollution.headers')
+            if rc != 0 and not self.is_infra(rc, out):
+                self.violate('compile.error.client-code-after.%s' % hname(h),
+                             'strict C99 client code (own getline/strdup/...; constructs that only draw warnings) compiles on its own but not after '
+                             '#include "cstl/%s": the header changes feature-test macros or diagnostics for the code that follows it (%s)'
+                             % (h, self.first_error(out)), -1, ' '.join(cmd), out,
+                             {'client': 'pollution', 'kind': 'client-code-after-header', 'headers': [h], 'desc': 'client code after ' + h},
+                             cls='compile', hs=(h,))
+
     def note_warnings(self, out):
         for m in re.finditer(r'warning: .*?(?:\[(-W[^\]]+)\])?$', out or '', re.M):
             self.count('warnings')
@@ -1250,6 +1322,7 @@ class Pipeline:
             self.stage_bare()
             self.stage_dialects()
             self.stage_callshapes()
+            self.stage_pollution()
             self.enumerate()
             self.ncases = len(self.configs)
             self.stage_compile()
